@@ -411,6 +411,10 @@ func ruleColumnCount(c *eng.Ctx) {
 					return
 				}
 			}
+			if perCellSpan(b.Y, map[ssa.Value]bool{}) {
+				// a loop over the columns one cell spans (bounded by that cell's own span) is not a padding loop
+				return
+			}
 			bounds = append(bounds, b.Y)
 		})
 		okAll := len(bounds) > 0
@@ -438,4 +442,33 @@ func ruleColumnCount(c *eng.Ctx) {
 		}
 		c.Check(okAll, R, name+"#column-count", fn.Pos(), "column count is the maximum over all rows", "the padding/delimiter column count is not accumulated over all rows: a later, wider row gets more cells than the header and the table breaks")
 	}
+}
+
+// perCellSpan reports whether v is computed directly (not through a loop-carried
+// accumulator) from a ColSpan field load: the span of the cell at hand.
+func perCellSpan(v ssa.Value, seen map[ssa.Value]bool) bool {
+	if v == nil || seen[v] {
+		return false
+	}
+	seen[v] = true
+	switch x := v.(type) {
+	case *ssa.Phi:
+		if isLoopCarried(x) {
+			return false
+		}
+		for _, e := range x.Edges {
+			if perCellSpan(e, seen) {
+				return true
+			}
+		}
+	case *ssa.BinOp:
+		return perCellSpan(x.X, seen) || perCellSpan(x.Y, seen)
+	case *ssa.UnOp:
+		if fr, ok := eng.LoadOfField(x); ok && fr.Field == "ColSpan" {
+			return true
+		}
+	case *ssa.Field:
+		return x.X.Type().Underlying().(*types.Struct).Field(x.Field).Name() == "ColSpan"
+	}
+	return false
 }
